@@ -1,6 +1,7 @@
 package symex
 
 import (
+	"strconv"
 	"fmt"
 	"go/types"
 	"regexp"
@@ -162,6 +163,9 @@ func init() {
 			panic(engineErr("strconv.FormatUint with a non-constant base"))
 		}
 		base := bt.Val
+		if v.IsConst() {
+			return constStr(strconv.FormatUint(v.Val, int(base))) // fully known value: the real formatting
+		}
 		sfx := fmt.Sprint(base)
 		t := smt.UF("fmtuint"+sfx, "((_ BitVec 64)) Str", smt.StrS, v)
 		key := fmt.Sprintf("fmtuint%s:%d", sfx, v.ID())
@@ -198,6 +202,17 @@ func init() {
 		base := bt.Val
 		sfx := fmt.Sprint(base)
 		sv := strView(s)
+		if cs, isC := sv.concrete(); isC {
+			bits := 64
+			if bt2, ok := args[2].(*smt.Term); ok && bt2.IsConst() && bt2.Val > 0 && bt2.Val <= 64 {
+				bits = int(bt2.Val)
+			}
+			n, err := strconv.ParseUint(cs, int(base), bits) // fully known string: the real parser
+			if err != nil {
+				return Tuple{c0, e.newErr("strconv.ParseUint")}
+			}
+			return Tuple{c64(int(n)), nilErr()}
+		}
 		t, ok := sv.wholeAtom()
 		if !ok {
 			t = e.atomOfView(sv)
